@@ -1,7 +1,7 @@
 (* Condense.v — executable model of the token passes of Document::parse (harper-core/src/document.rs):
-     condense_spaces, condense_newlines, newlines_to_breaks, condense_contractions,
-     condense_dotted_initialisms, condense_number_suffixes (+ condense_indices), condense_ellipsis,
-     condense_latin (condense_pattern + PatternExt::find_all_matches + the three fixed patterns),
+     condense_spaces, condense_newlines, newlines_to_breaks, condense_number_suffixes (+ condense_indices;
+     before the contractions since dcfd71f), condense_contractions, condense_dotted_initialisms,
+     condense_ellipsis, condense_latin (condense_pattern + PatternExt::find_all_matches + the three fixed patterns),
      match_quotes — in the order Document::parse applies them (the translator re-checks that order).
    No proofs here.
 
@@ -422,9 +422,9 @@ Definition document_passes (src : text) (toks : list token) : res (list token) :
   do t1 <- condense_spaces toks;
   do t2 <- condense_newlines t1;
   let t3 := newlines_to_breaks t2 in
-  do t4 <- condense_contractions src t3;
-  do t5 <- condense_dotted_initialisms t4;
-  do t6 <- condense_number_suffixes src t5;
+  do t4 <- condense_number_suffixes src t3;
+  do t5 <- condense_contractions src t4;
+  do t6 <- condense_dotted_initialisms t5;
   do t7 <- condense_ellipsis src t6;
   do t8 <- condense_latin src t7;
   do t9 <- match_quotes t8;
